@@ -59,7 +59,7 @@ LOCS = {
     "SA": (-60.0, -15.0, 32721, 6933),
 }
 # extent name -> (degrees, metres) spanned by the longest raster side
-EXTENT = {"tile": (0.1, 1.0e4), "regional": (4.0, 4.0e5), "continental": (40.0, 3.0e6)}
+EXTENT = {"tile": (0.1, 1.0e4), "district": (0.2, 2.0e4), "regional": (4.0, 4.0e5), "continental": (40.0, 3.0e6)}
 SRC_KINDS = ("deg", "merc", "ea", "utmz")
 UTM_ARGS = ("utm", "utm-n", "utm-s")
 
@@ -83,7 +83,8 @@ def kind_epsg(kind, loc):
     if kind in NOEPSG:
         return NOEPSG[kind]
     _, _, utm, ea = LOCS[loc]
-    return {"deg": 4326, "merc": 3857, "ea": ea, "utmz": utm, "cea": 6933, "deg2": DEG2.get(loc)}[kind]
+    # utmn: the UTM zone east of the location's own (a raster at the location lies outside its area of use)
+    return {"deg": 4326, "merc": 3857, "ea": ea, "utmz": utm, "utmn": utm + 1, "cea": 6933, "deg2": DEG2.get(loc)}[kind]
 
 
 def crs_spec(cid):
@@ -693,7 +694,29 @@ def run_case(case):
     else:
         raise ValueError(api)
     judge(r, S, loc, dst_enc, req, aenc, tight, tol, g, what)
+    mode = "shape" if req[0] == "shape" else (req[1] if isinstance(req[1], str) else "explicit")
+    kk = f"{S.kind}->{dst_enc}:{S.orient}:{S.extent}:{mode}"
+    if dst_enc in UTM_ARGS and isinstance(g, GeoBox) and g.crs is not None and g.crs.epsg is not None:
+        # a keyword names a CRS: the grid must be the one computed for that CRS given by its EPSG code
+        code = f"epsg:{g.crs.epsg}"
+        g2 = S.gbox.to_crs(code, **kw) if api == "to_crs" else compute_output_geobox(S.gbox, code, **kw)
+        if not same_grid(g, g2):
+            r.fail(f"utm:keyword-differs-from-epsg:{kk}",
+                   f"{what} -> {g!r}, but with {code!r} in place of {crs_arg!r} -> {g2!r}")
+    if api == "to_crs" and want_epsg is not None:
+        # the method is the function: identical options, identical grid
+        g2 = compute_output_geobox(S.gbox, crs_arg, **kw)
+        if not same_grid(g, g2):
+            r.fail(f"entry-points-differ:to_crs:{kk}:tol={tol!r}",
+                   f"{what} -> {g!r}, but compute_output_geobox with the same arguments -> {g2!r}")
     return r
+
+
+def same_grid(g1, g2):
+    if g1 is g2:
+        return True
+    return (isinstance(g1, GeoBox) and isinstance(g2, GeoBox) and g1.crs == g2.crs and tuple(g1.shape) == tuple(g2.shape)
+            and tuple(g1.affine)[:6] == tuple(g2.affine)[:6])
 
 
 # ---------------------------------------------------------------------------------------------
@@ -1007,6 +1030,99 @@ def run_hist(case):
     return r
 
 
+# ---------------------------------------------------------------------------------------------
+# large metre-based rasters across a zone's central meridian -> utm keywords
+# ---------------------------------------------------------------------------------------------
+def gen_utm_large(tier):
+    t = tier == "thorough"
+    kinds = ("merc", "ea", "cea", "utmn")
+    opts = ((("res", "auto"), "default", False, 0.01), (("res", "fit"), "default", True, 0.01))
+    if t:
+        opts += ((("res", "same"), "center", False, 0.0), (("shape", 50), "default", False, 0.01))
+    for orient, kind, loc, dst, (req, aenc, tight, tol) in itertools.product(
+            ORIENT, kinds, LOC5 if t else ("eu", "au", "sa"), UTM_ARGS, opts):
+        yield ("cog", orient, kind, loc, "regional", (600, 1000), dst, req, aenc, tight, tol)
+    # 20 km at 10 m pixels; the method entry point
+    for api, orient, kind, loc, dst in itertools.product(("to_crs",) + (("cog",) if t else ()), ORIENT, kinds,
+                                                        ("eu", "au", "sa") if t else ("eu",), UTM_ARGS if t else ("utm",)):
+        yield (api, orient, kind, loc, "district", (2000, 2000), dst, ("res", "auto"), "default", False, 0.01)
+
+
+# ---------------------------------------------------------------------------------------------
+# tol on every entry point, source origin slid over one (coarse) output pixel
+# ---------------------------------------------------------------------------------------------
+TOL5 = (0.0, 1e-3, 0.01, 0.05, 0.3)
+# (source kind, location, source pixel, source shape, target kind, output pixel / source pixel)
+SWEEP = (
+    ("utmz", "eu", 10.0, (48, 64), "ea", 500.0),  # EPSG:32633, 10 m -> EPSG:3035 at 5000 m
+    ("merc", "au", 10.0, (64, 48), "utmz", 300.0),  # EPSG:3857, 10 m -> EPSG:32755 at 3000 m
+    ("ea", "sa", 30.0, (40, 40), "merc", 200.0),  # EPSG:6933, 30 m -> EPSG:3857 at 6000 m
+)
+
+
+def gen_sweep(tier):
+    t = tier == "thorough"
+    # slide by k source pixels: quick every 2nd position over one output pixel, thorough every position (+20)
+    yield from itertools.product(("cog", "to_crs"), (0,), ("x", "y"), range(0, 500, 2), TOL5)
+    yield from itertools.product(("xr",), (0,), ("x", "y"), range(0, 500, 10), TOL5)
+    if t:
+        yield from itertools.product(("cog", "to_crs"), (0,), ("x", "y"), range(1, 521, 2), TOL5)
+        yield from itertools.product(("cog", "to_crs", "xr"), (1,), ("x", "y"), range(0, 310), TOL5)
+        yield from itertools.product(("cog", "to_crs", "xr"), (2,), ("x", "y"), range(0, 210), TOL5)
+
+
+def run_sweep(case):
+    api, si, axis, k, tol = case
+    kind, loc, p, shape, dkind, factor = SWEEP[si]
+    lon, lat, _, _ = LOCS[loc]
+    epsg = kind_epsg(kind, loc)
+    ny, nx = shape
+    cx, cy = fresh(4326, epsg).transform(lon, lat)
+    out_px = p * factor
+    x0 = math.floor(cx / out_px) * out_px + (k * p if axis == "x" else 0.37 * out_px)
+    y1 = math.floor(cy / out_px) * out_px + (k * p if axis == "y" else 0.61 * out_px)
+    coef = (p, 0.0, float(x0), 0.0, -p, float(y1))
+    gbox = GeoBox(shape, Affine(*coef), crs_spec(epsg))
+    r = R()
+    src_txt = f"GeoBox({shape}, Affine{coef}, {crs_spec(epsg)!r})"
+    if api == "xr":
+        from odc.geo.xr import xr_zeros  # pylint: disable=import-outside-toplevel
+
+        xx = xr_zeros(gbox, dtype="uint8")
+        gbox = xx.odc.geobox
+        if not isinstance(gbox, GeoBox) or gbox.crs is None or gbox.crs.epsg != epsg or tuple(gbox.shape) != shape:
+            r.outcome, r.nontrivial = "sweep:xr:no-geobox", False  # registration round trip is C09's subject
+            return r
+        coef = tuple(float(v) for v in tuple(gbox.affine)[:6])
+        src_txt = f"xr_zeros({src_txt})"
+    S = Src()
+    S.key, S.epsg, S.kind, S.orient, S.shape, S.p = ("sweep",) + tuple(case), epsg, kind, "nu", shape, p
+    S.extent = f"sweep:{api}:tol={tol!r}"
+    S.coef, S.gbox, S._memo = coef, gbox, {}
+    crs_arg, want, _ = dst_arg_of(dkind, S, loc)
+    req = ("res", ("s", factor))
+    res = res_value(req[1], S, unit_class(want))[0]
+    kw = dict(resolution=res, tol=tol)
+    call = {"cog": f"compute_output_geobox({src_txt}, {crs_arg!r}, ", "to_crs": f"{src_txt}.to_crs({crs_arg!r}, ",
+            "xr": f"{src_txt}.odc.output_geobox({crs_arg!r}, "}[api]
+    what = call + ", ".join(f"{k_}={v!r}" for k_, v in kw.items()) + ")"
+    gf = compute_output_geobox(gbox, crs_arg, **kw)
+    if api == "cog":
+        g = gf
+    elif api == "to_crs":
+        g = gbox.to_crs(crs_arg, **kw)
+    else:
+        g = xx.odc.output_geobox(crs_arg, **kw)
+    judge(r, S, loc, dkind, req, "default", False, tol, g, what)
+    lab = r.outcome
+    if api != "cog" and not same_grid(g, gf):
+        r.fail(f"entry-points-differ:{api}:{kind}->{dkind}:sweep:tol={tol!r}",
+               f"{what} -> {g!r}, but compute_output_geobox with the same arguments -> {gf!r}")
+        lab += ":DIFFERS"
+    r.outcome = f"sweep:{api}:tol={tol!r}:{tuple(g.shape) if isinstance(g, GeoBox) else '?'}:" + lab.split(":")[-2]
+    return r
+
+
 NOEPSG_KINDS = ("sinu*", "laea*", "tmerc*", "aea*", "ea")  # four PROJ strings without an EPSG code + EPSG:3035
 
 
@@ -1032,7 +1148,7 @@ def gen_noepsg(tier):
 def gen_api(tier):
     t = tier == "thorough"
     reqs = (("res", "auto"), ("res", "fit"), ("res", ("s", 2.5)), ("shape", (32, 32)), ("shape", 50))
-    opts = (("default", False, 0.01), ("center", False, 0.1), ("default", True, 0.01))
+    opts = (("default", False, 0.01), ("center", False, 0.1), ("default", True, 0.01), ("default", False, 0.0))
     for api, orient, kind, loc, dst, req, (aenc, tight, tol) in itertools.product(
             ("to_crs", "cog-explicit", "crs-object", "crs-int"), ORIENT, SRC_KINDS, LOC5 if t else ("eu",),
             DST4, reqs, opts):
@@ -1042,7 +1158,7 @@ def gen_api(tier):
 def gen_xr(tier):
     t = tier == "thorough"
     reqs = (("res", "auto"), ("res", "fit"), ("res", ("s", 2.5)), ("shape", (32, 32)), ("shape", 50))
-    opts = (("default", False, 0.01), ("center", False, 0.1), ("default", True, 0.01))
+    opts = (("default", False, 0.01), ("center", False, 0.1), ("default", True, 0.01), ("default", False, 0.0))
     for orient, kind, loc, dst, req, (aenc, tight, tol) in itertools.product(
             ORIENT, SRC_KINDS, LOC5 if t else ("au",), DST4, reqs, opts):
         yield (orient, kind, loc, "tile", (32, 32), dst, req, aenc, tight, tol)
@@ -1084,6 +1200,14 @@ def slices(tier):
           "ordered pairs of 'utm*' requests in one process: small rasters on either side of a UTM zone boundary / of the "
           "equator (both orders) and a same-place repeat, via compute_output_geobox / to_crs / CRS.utm; each answer "
           "judged by the utm clauses and compared with the same request issued first"),
+        S("utm-large", gen_utm_large, run_case,
+          "1000x600 (400 km) and 2000x2000 (20 km, 10 m) metre-based rasters (Mercator, equal-area, the neighbouring UTM "
+          "zone) across a zone's central meridian -> 'utm' / 'utm-n' / 'utm-s'; containment over the outer boundary and "
+          "keyword result == result for the EPSG code it resolves to"),
+        S("tol-sweep", gen_sweep, run_sweep,
+          "tol in {0, 1e-3, 0.01, 0.05, 0.3} x {function, GeoBox.to_crs, xarray accessor} x source origin slid pixel by pixel "
+          "over one output pixel (output pixel 200-500 x source pixel), each axis separately; containment with the stated "
+          "tol and method/accessor == function"),
         S("entry-points", gen_api, run_case,
           "GeoBox.to_crs, every argument given explicitly, CRS object and integer EPSG as crs="),
         S("xarray", gen_xr, run_xr, "xr_zeros(src).odc.output_geobox(...)"),
@@ -1153,6 +1277,12 @@ def main(ctx):
         "and transformer caches; none exists on the unchanged tree); reference = the second request issued first after "
         "such a reset; the first request of a pair is itself a fresh-state request; rasters lie wholly inside one zone and "
         "one hemisphere, so the utm clauses alone already determine the zone",
+        "a 'utm*' keyword names a CRS: the grid must equal (EPSG, shape, affine) the one computed with the same options for "
+        "the EPSG code it resolved to; GeoBox.to_crs / .odc.output_geobox must return the grid compute_output_geobox returns "
+        "for identical arguments (the method is documented as that function)",
+        "tol-sweep: containment is judged with the tol stated in the call on every entry point; the source origin is slid "
+        "in steps of one (quick: two) source pixels over one output pixel so that a footprint edge falls within 1/100 of an "
+        "output pixel past a grid line at several positions",
         "mirrored-sources: axis-aligned GeoBoxes whose columns run east-west and/or rows south-north are source GeoBoxes "
         "like any other (the quantifier's 'north-up and rotated' is read as 'any orientation'); kept in their own slice, "
         "finding keys carry the orientation (mx / su / r180)",
